@@ -203,7 +203,7 @@ def run_job(col, pattern, filename="result.xdmf"):
 
 def run_job_mesh(col):
     """which mesh is written to the result file: the given one, else the global field's (x0), else the first item's"""
-    for variant in ("x0", "first item"):
+    for variant in ("x0", "first item", "given mesh", "given mesh and x0"):
         it = new_interp()
         it.lazy_generators = True
         store = Store()
@@ -253,15 +253,18 @@ def run_job_mesh(col):
         steps = [it.call(Step, [], dict(items=[itemA], ramp={itemA: [sym("s0")]}, boundaries={}))]
         job = it.call(Job, [steps], {})
         kw = dict(verbose=False, filename="r.xdmf", point_data={}, cell_data={}, point_data_default=False, cell_data_default=False)
-        if variant == "x0":
+        if variant in ("x0", "given mesh and x0"):
             kw["x0"] = Glob()
+        if variant.startswith("given mesh"):
+            # the multi-body workflow: the global field lives on a vertex mesh, the cells to be written are handed over as mesh=
+            kw["mesh"] = MeshIO("given")
         try:
             it.call_method(job, "evaluate", [], kw)
         except Exception as e:  # noqa -- the stand-in fields are not usable by the (scripted) solver path beyond the header
             pass
         hdr = [e for e in log if e[0] == "points_cells"]
-        want = "global" if variant == "x0" else "item"
-        col.add("C20.O1", "job mesh source (%s)" % variant, "the mesh written to the file is the global field's (x0) when one is given, else the first item's field's",
+        want = "given" if variant.startswith("given mesh") else ("global" if variant == "x0" else "item")
+        col.add("C20.O1", "job mesh source (%s)" % variant, "the mesh written to the file is the one given as mesh=, else the global field's (x0) when one is given, else the first item's field's",
                 len(hdr) == 1 and hdr[0][1] == "POINTS-" + want, "mechanics/_job.py Job.evaluate: header %s" % (hdr[:1],))
         finish_info(col, it)
 
